@@ -329,9 +329,14 @@ func forged(c *common.Ctx, r *common.Rand) error {
 		{"garbage", r.Bytes(300)},
 		{"empty", nil},
 	}
+	// the sender holds the database's halt lock, as the forwarding endpoint requires
+	if _, err := p.Store.DB("db").AcquireHaltLock(context.Background(), 55); err != nil {
+		return fmt.Errorf("halt lock: %v", err)
+	}
+	defer p.Store.DB("db").ReleaseHaltLock(context.Background(), 55)
 	for _, t := range cases {
 		before := snapshotState(p.Dir, p.Store)
-		req, _ := http.NewRequest("POST", p.Server.URL()+"/tx?name=db&id=1", bytes.NewReader(t.body))
+		req, _ := http.NewRequest("POST", p.Server.URL()+"/tx?name=db&lockID=55", bytes.NewReader(t.body))
 		req.Header.Set("Litefs-Id", "00000000000003E7")
 		resp, err := http.DefaultClient.Do(req)
 		code := 0
@@ -352,6 +357,22 @@ func forged(c *common.Ctx, r *common.Rand) error {
 		}
 		if !before.equal(afterSt) {
 			c.Violate("C06:forged-tx:changed:"+t.name, fmt.Sprintf("rejected transaction file (%s) on /tx changed the node: before %+v after %+v", t.name, before, afterSt), map[string]any{"kind": "forged-tx", "name": t.name})
+		}
+	}
+	// positive control: the same request with a file that does extend the position is applied
+	{
+		req, _ := http.NewRequest("POST", p.Server.URL()+"/tx?name=db&lockID=55", bytes.NewReader(good(pos.TXID+1, pos.TXID+1, pos.Chk)))
+		req.Header.Set("Litefs-Id", "00000000000003E7")
+		resp, err := http.DefaultClient.Do(req)
+		code := 0
+		if err == nil {
+			code = resp.StatusCode
+			_, _ = io.Copy(io.Discard, resp.Body)
+			resp.Body.Close()
+		}
+		c.Evaluations++
+		if np := dbPos(p.Store); code != 200 || np.TXID != pos.TXID+1 || np.Chk != after.Checksum() {
+			c.Violate("C06:forged-tx:control", fmt.Sprintf("a well-formed forwarded file from the lock holder answered %d and left the position at (%d,%016x), want (%d,%016x)", code, np.TXID, np.Chk, pos.TXID+1, after.Checksum()), map[string]any{"kind": "forged-tx", "name": "control"})
 		}
 	}
 	// ---- the same on the replication stream: a replica connected to a primary that offers bad files ----
